@@ -115,6 +115,20 @@ def cases(chk):
         out.append(('vars [%s %s %s] [%s %s %s]' % (t1, v1, m1, t2, v2, m2),
                     lambda b, a=(t1, v1, m1, t2, v2, m2): file_of(b, [('contract', 'Contract', [make_variable(b, a[0], a[1], a[2], False, init=a[2] == 'constant')]),
                                                                       ('contract', 'Library', [make_variable(b, a[3], a[4], a[5], True, init=a[5] == 'constant')])])))
+    # a state variable that the detectors skip (mapping / user-defined type / array) WITH attributes, followed by an elementary one
+    # WITHOUT any attribute (same contract, next contract, with a function in between): nothing of the first may reach the second
+    for t1, v1, m1 in [('mapping', 'private', None), ('user', 'public', 'constant'), ('mapping', 'internal', None), ('array', 'private', None), ('user', 'private', 'immutable')]:
+        for where in ('next', 'after_function', 'next_contract'):
+            def build(b, a=(t1, v1, m1), w=where):
+                first = make_variable(b, a[0], a[1], a[2], True, init=a[2] == 'constant')
+                second = make_variable(b, 'uint256', None, None, False)
+                third = make_variable(b, 'address', None, None, True)
+                if w == 'next':
+                    return file_of(b, [('contract', 'Contract', [first, second, third])])
+                if w == 'after_function':
+                    return file_of(b, [('contract', 'Contract', [first, make_function(b, 'Function', 'public', True, True, False), second, third])])
+                return file_of(b, [('contract', 'Contract', [first]), ('contract', 'Contract', [second, third])])
+            out.append(('vars attributed %s %s %s then bare uint256 (%s)' % (t1, v1, m1, where), build))
     # constructor_order: member sequences (F function, M modifier, C constructor, R receive, V variable, K fallback)
     letters = {'F': lambda b: make_function(b, 'Function', 'public', False, True, False),
                'M': lambda b: make_function(b, 'Modifier', None, False, True, False),
@@ -200,7 +214,7 @@ def body(chk):
     idx = list(range(n))
     if chk.quick:
         chk.rng.shuffle(idx)
-        core = [i for i, (l, _) in enumerate(cases(chk)) if l.startswith(('members', 'contracts', 'free function', 'unnamed legacy')) or 'attribute order' in l]
+        core = [i for i, (l, _) in enumerate(cases(chk)) if l.startswith(('members', 'contracts', 'free function', 'unnamed legacy', 'vars attributed')) or 'attribute order' in l]
         idx = sorted(set(core) | set(idx[:260]))
     chk.bounds = {'files': '%d of %d declaration shapes x 5 detectors' % (len(idx), n),
                   'shapes': 'function kind x visibility x payable x body x underscore x contract kind; variable type x visibility x constant/immutable x underscore; '
